@@ -20,6 +20,7 @@ from pathlib import Path
 from ..common import Run, Emb, repo_import, seed
 from ..tlc import run_tlc, write_cfg, MachineryError
 from . import utility as util_mod
+from . import tdf as tdf_mod
 
 GRID = dict(Areas={10, 45, 120}, Units={1, 2, 5}, FixedCosts={0, 1000}, VarCosts={0, 100, 450}, RateNum={1, 2, 3, 5}, RateDen={2, 4, 10}, Years={1, 2, 3, 4})
 K = 100
@@ -173,7 +174,7 @@ def has_gap(streams):
 
 
 def kf_gap(v, f):
-    return bool(v.case.get("gap")) and v.clause in ("C15.area_equals_independent_definition", "C15.area_is_sum_of_interval_areas")
+    return bool(v.case.get("gap")) and v.clause in ("C15.area_equals_independent_definition", "C15.area_is_sum_of_interval_areas", "C15.area_tdf_end_difference.end")
 
 
 def check(prop, tier, run: Run, replay_case=None):
@@ -215,6 +216,8 @@ def check(prop, tier, run: Run, replay_case=None):
         for c_exp in (0.6, 1.0, 0.5):
             if b and not compute_capital_cost(float(A), N, a, b, c_exp) < compute_capital_cost(float(A) * 1.5, N, a, b, c_exp):
                 run.violation("C15.cost_increases_with_area", case, dict(exponent=c_exp))
+    # ---- mechanism level: the temperature-driving-force decomposition (spec/DrivingForce.tla)
+    tdf_mod.check_part(run, tier, replay_case)
     # ---- part 2: stream sets from the Utility enumeration restricted to positive contributions
     gen = util_mod.tlc_cases("quick" if tier == "quick" else "deepA",
                              overrides=dict(DTCs={50}, HotOpts={0, 1, 2}, ColdOpts={0, 1, 2}) if tier == "quick" else dict(DTCs={50, 100}, HotOpts={0, 1, 2}, ColdOpts={0, 1, 2}))
